@@ -52,6 +52,9 @@ type env struct {
 	rep   *vh.Report
 	// forceIdx, when set, gives the node indices of the next fresh scenario (instead of a random sorted list)
 	forceIdx []int
+	// forceOrder, when non-zero, gives the order in which the next scenario lists its nodes in Config.OldNodes /
+	// Config.NewNodes: 1 increasing index, 2 decreasing index, 3 shuffled (0: drawn at random)
+	forceOrder int
 }
 
 func (e *env) scalar(v int64) kyber.Scalar { return e.suite.Scalar().SetInt64(v) }
@@ -169,6 +172,8 @@ type scen struct {
 	oldSecret  kyber.Scalar
 	dealPub    map[int][]kyber.Point // party id -> public polynomial it broadcast (unique valid bundle)
 	viaDriver  bool                  // run through dkg.Protocol instances (driver.go) instead of direct calls
+	orderOld   int                   // order of Config.OldNodes / NewNodes (orderName)
+	orderNew   int
 }
 
 func (sc *scen) byNidx(i uint32) *party {
@@ -217,6 +222,7 @@ func (sc *scen) describe() map[string]interface{} {
 	}
 	m := map[string]interface{}{"suite": sc.e.name, "kind": sc.kind, "fast_sync": sc.fast, "n_old": sc.nOld, "t_old": sc.tOld,
 		"n_new": sc.nNew, "t_new": sc.tNew, "old_indices": oi, "new_indices": ni, "faults": fs}
+	m["old_nodes_listed"], m["new_nodes_listed"] = orderName[sc.orderOld], orderName[sc.orderNew]
 	if sc.viaDriver {
 		m["run_through"] = "dkg.Protocol instances over a scripted board and phaser (every packet reaches every node before the phase ends; per-node orders and duplicates from the seed)"
 	}
@@ -228,6 +234,7 @@ func indices(rng *vh.Rng, n int) []int {
 	out := make([]int, n)
 	cur := 0
 	gaps := rng.Chance(30)
+	far := gaps && rng.Chance(30) // one index far away from the others (0,53,2,3,4 once the list is shuffled)
 	for i := range out {
 		if gaps {
 			cur += rng.Intn(3)
@@ -235,8 +242,38 @@ func indices(rng *vh.Rng, n int) []int {
 		out[i] = cur
 		cur++
 	}
+	if far {
+		k := rng.Intn(n)
+		d := 40 + rng.Intn(20)
+		for i := k; i < n; i++ {
+			out[i] += d
+		}
+	}
 	return out
 }
+
+// reorder lists the nodes in increasing, decreasing or shuffled index order
+// (Config.OldNodes / NewNodes are plain lists: nothing obliges the caller to sort them).
+func reorder(rng *vh.Rng, l []dkg.Node, order int) []dkg.Node {
+	out := append([]dkg.Node{}, l...)
+	sort.SliceStable(out, func(a, b int) bool { return out[a].Index < out[b].Index })
+	switch order {
+	case 2:
+		for i, j := 0, len(out)-1; i < j; i, j = i+1, j-1 {
+			out[i], out[j] = out[j], out[i]
+		}
+	case 3:
+		p := permutation(rng, len(out))
+		sh := make([]dkg.Node, len(out))
+		for i, k := range p {
+			sh[i] = out[k]
+		}
+		out = sh
+	}
+	return out
+}
+
+var orderName = []string{"", "increasing", "decreasing", "shuffled"}
 
 func thresholds(n int) []int {
 	var ts []int
@@ -335,6 +372,29 @@ func newScen(e *env, kind string, fast bool, nOld, tOld, nNew, tNew int) *scen {
 			p.nidx = ni[i]
 			sc.newNodes = append(sc.newNodes, dkg.Node{Index: uint32(ni[i]), Public: p.pub})
 		}
+	}
+	// order of the node lists
+	pick := func() int {
+		if e.forceOrder != 0 {
+			return e.forceOrder
+		}
+		switch r := rng.Intn(100); {
+		case r < 50:
+			return 1
+		case r < 65:
+			return 2
+		}
+		return 3
+	}
+	if !sc.reshare {
+		sc.orderNew = pick()
+		sc.orderOld = sc.orderNew
+		sc.newNodes = reorder(rng, sc.newNodes, sc.orderNew)
+		sc.oldNodes = sc.newNodes
+	} else {
+		sc.orderOld, sc.orderNew = pick(), pick()
+		sc.oldNodes = reorder(rng, sc.oldNodes, sc.orderOld)
+		sc.newNodes = reorder(rng, sc.newNodes, sc.orderNew)
 	}
 	return sc
 }
@@ -1419,6 +1479,91 @@ func (e *env) runScen(sc *scen, cases *[]string, caseID *int) {
 	e.rep.Sample(sc.describe())
 }
 
+// recoverUnrelated: what computeResharingResult relies on.  The values handed to
+// share.RecoverSecret / RecoverPriPoly (private) and share.RecoverCommit
+// (public) in a resharing are NOT shares of one polynomial; both sides must
+// therefore use the same subset - the t lowest distinct indices with a value -
+// whatever the order of the slice, the number of entries above t and the nil
+// holes.  Oracle: for unrelated values v_i at indices i (unsorted, > t entries,
+// nil entries, entries with a nil value), commit(RecoverSecret) =
+// RecoverCommit(commit v_i) = commit of the interpolation at 0 over the t lowest
+// indices, RecoverPriPoly(...).Secret() agrees, and a permutation of the slice
+// changes nothing.
+func recoverUnrelated(e *env, n int) {
+	rng := e.rng
+	g := e.suite
+	for c := 0; c < n; c++ {
+		t := 1 + rng.Intn(4)
+		m := t + rng.Intn(4) // entries with a value
+		idx := indices(rng, m)
+		var pri []*share.PriShare
+		var pub []*share.PubShare
+		for _, i := range idx {
+			v := e.randScalar()
+			pri = append(pri, &share.PriShare{I: uint32(i), V: v})
+			pub = append(pub, &share.PubShare{I: uint32(i), V: g.Point().Mul(v, nil)})
+		}
+		// expected: Lagrange interpolation at 0 over the t lowest indices
+		exp := g.Scalar().Zero()
+		for a := 0; a < t; a++ {
+			num, den := g.Scalar().One(), g.Scalar().One()
+			xa := g.Scalar().SetInt64(int64(idx[a] + 1))
+			for b := 0; b < t; b++ {
+				if a == b {
+					continue
+				}
+				xb := g.Scalar().SetInt64(int64(idx[b] + 1))
+				num = g.Scalar().Mul(num, xb)
+				den = g.Scalar().Mul(den, g.Scalar().Sub(xb, xa))
+			}
+			exp = g.Scalar().Add(exp, g.Scalar().Mul(pri[a].V, g.Scalar().Div(num, den)))
+		}
+		// the slice as a caller may hand it over: permuted, with nil holes and value-less entries
+		perm := permutation(rng, m)
+		var ps []*share.PriShare
+		var qs []*share.PubShare
+		for _, k := range perm {
+			if rng.Chance(20) {
+				ps, qs = append(ps, nil), append(qs, nil)
+			}
+			ps, qs = append(ps, pri[k]), append(qs, pub[k])
+		}
+		nn := uint32(len(ps) + rng.Intn(3))
+		desc := map[string]interface{}{"suite": e.name, "t": t, "indices_in_slice_order": func() []int {
+			var r []int
+			for _, x := range ps {
+				if x == nil {
+					r = append(r, -1)
+				} else {
+					r = append(r, int(x.I))
+				}
+			}
+			return r
+		}()}
+		sec, err1 := share.RecoverSecret(g, ps, uint32(t), nn)
+		com, err2 := share.RecoverCommit(g, qs, uint32(t), nn)
+		pp, err3 := share.RecoverPriPoly(g, ps, uint32(t), nn)
+		e.rep.Dist("share.Recover* on unrelated values")
+		e.rep.Count(fmt.Sprint("recover", desc, rng.U64()), m > t)
+		if err1 != nil || err2 != nil || err3 != nil {
+			e.rep.Fail("share.Recover/unrelated-values/refused", fmt.Sprint(err1, err2, err3), desc)
+			continue
+		}
+		if !sec.Equal(exp) {
+			e.rep.Fail("share.RecoverSecret/unrelated-values/not-the-t-lowest-indices", "RecoverSecret does not interpolate over the t lowest indices of the slice", desc)
+		}
+		if !pp.Secret().Equal(exp) {
+			e.rep.Fail("share.RecoverPriPoly/unrelated-values/not-the-t-lowest-indices", "RecoverPriPoly does not interpolate over the t lowest indices of the slice", desc)
+		}
+		if !com.Equal(g.Point().Mul(exp, nil)) {
+			e.rep.Fail("share.RecoverCommit/unrelated-values/not-the-t-lowest-indices", "RecoverCommit does not interpolate over the t lowest indices of the slice", desc)
+		}
+		if !com.Equal(g.Point().Mul(sec, nil)) {
+			e.rep.Fail("share.Recover/unrelated-values/private-and-public-side-use-different-subsets", "commit(RecoverSecret(values)) differs from RecoverCommit(commit values)", desc)
+		}
+	}
+}
+
 // packet-store correspondence: random push sequences through the real set
 func (e *env) setCases(n int, cases *[]string, caseID *int) {
 	rng := e.rng
@@ -1510,7 +1655,7 @@ func main() {
 	var cases []string
 	caseID := 0
 	maxN := 5
-	nD, nE, nSet := 215, 40, 150
+	nD, nE, nSet := 212, 40, 150
 	if o.Thorough {
 		maxN = 7
 		nD, nE, nSet = 1500, 200, 600
@@ -1531,6 +1676,8 @@ func main() {
 	if o.Search {
 		nDrvD, nDrvE = 3*nDrvD, 2*nDrvE
 	}
+	recoverUnrelated(envD, 60)
+	recoverUnrelated(envE, 8)
 	driverBatch(envD, nDrvD, maxN)
 	driverBatch(envE, nDrvE, maxN)
 	if !o.Search {
@@ -1574,6 +1721,38 @@ func pedersenBatch(e *env, n int, maxN int, exhaustive bool, cases *[]string, ca
 			e.runScen(sc, cases, caseID)
 			count++
 		}
+	}
+	// all honest, node lists in decreasing / shuffled index order, strictly more than oldT old dealers (all of
+	// them, and oldT+1 with one absent dealer): the dealers that count are the oldT LOWEST indices, not the first
+	// oldT of the list
+	for _, order := range []int{2, 3} {
+		for _, kind := range []string{"fresh", "overlap", "disjoint", "grow", "shrink"} {
+			e.forceOrder = order
+			var sc *scen
+			fast := rng.Chance(40)
+			switch kind {
+			case "fresh":
+				sc = newScen(e, kind, fast, 4, 3, 4, 3)
+			case "overlap":
+				sc = newScen(e, kind, fast, 5, 3, 5, 3)
+			case "disjoint":
+				sc = newScen(e, kind, fast, 4, 2, 4, 3)
+			case "grow":
+				sc = newScen(e, kind, fast, 4, 3, 5, 3)
+			case "shrink":
+				sc = newScen(e, kind, fast, 5, 3, 3, 2)
+			}
+			e.forceOrder = 0
+			e.runScen(sc, cases, caseID)
+			count++
+		}
+		// one old dealer absent: oldT+1 dealers left
+		e.forceOrder = order
+		sc := newScen(e, "disjoint", false, 5, 3, 4, 3)
+		e.forceOrder = 0
+		sc.assignFaults(1, func(int) (int, int, int) { return dAbsent, rHonest, jHonest })
+		e.runScen(sc, cases, caseID)
+		count++
 	}
 	// every single fault of the menu, one faulty party, n=4 t=3 (fresh) and a resharing
 	one := func(kind string, fast bool, d, r, j int) {
